@@ -329,19 +329,20 @@ func c07Cap(p *ana.Prog, r *ana.Result, hr *ssa.Function, tss, tssQ *ssa.Global)
 		if isCmp {
 			return false, false
 		}
-		c, _ := ana.CallOf(v)
-		if c == nil || ana.CalleeName(c.Common()) != ana.Q("(net/ntp.Time64).After") {
+		// rxt64 earlier than tssQ[0].qval (either spelling) must not hold
+		earlier, later, _, ok := strictOrder(v)
+		if !ok {
 			return false, false
 		}
-		ch, root := fieldChain(c.Common().Args[0])
+		ch, root := fieldChain(later)
 		// tssQ[0].qval
 		if ch != "[].qval" || !loadsGlobal(root, tssQ) {
 			return false, false
 		}
-		if k, ok := ana.ConstInt(indexOfAddrVal(c.Common().Args[0])); !ok || k != 0 {
+		if k, ok := ana.ConstInt(indexOfAddrVal(later)); !ok || k != 0 {
 			return false, false
 		}
-		if !isRxt64(c.Common().Args[1]) {
+		if !isRxt64(earlier) {
 			return false, false
 		}
 		return true, false
@@ -552,12 +553,12 @@ func c07QvalArms(p *ana.Prog, r *ana.Result, hr, ut *ssa.Function) {
 	var guardCall *ssa.Call
 	ana.IfEdges(hr, func(iff *ssa.If, b *ssa.BasicBlock) {
 		for _, a := range ana.Implied(iff.Cond, true) {
-			c, _ := ana.CallOf(a.V)
-			if c == nil || !a.Holds || ana.CalleeName(c.Common()) != ana.Q("(net/ntp.Time64).After") {
+			earlier, later, c, ok := strictOrder(a.V)
+			if !ok || !a.Holds {
 				continue
 			}
-			ch, root := fieldChain(c.Common().Args[1])
-			if isRxt64(c.Common().Args[0]) && ch == "buf[].rxt" && typeNameOf(root.Type()) == "tssItem" {
+			ch, root := fieldChain(earlier)
+			if isRxt64(later) && ch == "buf[].rxt" && typeNameOf(root.Type()) == "tssItem" {
 				guardIf = iff
 				guardCall = c
 			}
@@ -650,11 +651,13 @@ func c07QvalArms(p *ana.Prog, r *ana.Result, hr, ut *ssa.Function) {
 		if !isCmp || c.Op != token.EQL || !pos {
 			return
 		}
-		chx, _ := fieldChain(c.X)
-		if chx == "buf[].rxt" && isRxt64Local(c.Y) && b.Succs[0].Dominates(st2.Block()) {
-			// index of the compared element differs from the index of the new qval element
-			if indexOfAddrVal(c.X) != indexOfAddrVal(st2.Val) {
-				guardOK = true
+		for _, c := range []ana.Cmp{c, c.Mirror()} {
+			chx, _ := fieldChain(c.X)
+			if chx == "buf[].rxt" && isRxt64Local(c.Y) && b.Succs[0].Dominates(st2.Block()) {
+				// index of the compared element differs from the index of the new qval element
+				if indexOfAddrVal(c.X) != indexOfAddrVal(st2.Val) {
+					guardOK = true
+				}
 			}
 		}
 	})
@@ -727,10 +730,10 @@ func c07HeapMethods(p *ana.Prog, r *ana.Result) {
 	if len(less.Blocks) == 1 {
 		ret, _ := less.Blocks[0].Instrs[len(less.Blocks[0].Instrs)-1].(*ssa.Return)
 		if ret != nil && len(ret.Results) == 1 {
-			if c, _ := ana.CallOf(ret.Results[0]); c != nil && ana.CalleeName(c.Common()) == ana.Q("(net/ntp.Time64).Before") {
-				c0, _ := fieldChain(c.Common().Args[0])
-				c1, _ := fieldChain(c.Common().Args[1])
-				i0, i1 := indexOfAddrVal(c.Common().Args[0]), indexOfAddrVal(c.Common().Args[1])
+			if earlier, later, _, ok := strictOrder(ret.Results[0]); ok {
+				c0, _ := fieldChain(earlier)
+				c1, _ := fieldChain(later)
+				i0, i1 := indexOfAddrVal(earlier), indexOfAddrVal(later)
 				pi, _ := i0.(*ssa.Parameter)
 				pj, _ := i1.(*ssa.Parameter)
 				if c0 == "[].qval" || c0 == "qval" {
